@@ -60,9 +60,9 @@ Print Assumptions C02_compile_refines_rowsem_partial.
    f02a865 (and the has_group repair of NoOpNodeGroup.add_exit, a candidate patch) everywhere; before them only
    in rows without padding entries / in conditions that are not has_group tests. *)
 Theorem C02_reading_agrees_decided :
-  (if drops_padding_edges_everywhere then forall cr, reads_same cr
+  (if padding_edges_dropped_at_read then forall cr, reads_same cr
    else forall cr, no_paddingb (r_edges (cr_row cr)) = true -> reads_same cr)
-  /\ (if has_group_by_name_in_rows && has_group_by_name_from_noop
+  /\ (if has_group_edges_by_name && has_group_by_name_from_noop
       then forall c, row_args c = ref_args c /\ noop_args c = ref_args c
       else forall c, has_group_typed c = false -> row_args c = ref_args c /\ noop_args c = ref_args c).
 Proof. exact reading_agrees_decided. Qed.
